@@ -517,66 +517,80 @@ static void scenario_semsig(int rounds, int delay)
 
 // Condition with a timed wait whose deadline passes while the signaller HOLDS the mutex (the waiter can only return once the
 // signaller unlocks), followed by an ordinary single waiter on the same Condition: its signal must not be lost
+struct CondLateState {
+	Mutex mutex;
+	Condition cond;
+	bool flag1 = false, flag2 = false; // protected by mutex
+	std::atomic<int> inwait{0}, st{0};
+	CondLateState() : cond(mutex) {}
+};
 static void scenario_condlate(int rounds, int delay)
 {
 	rounds = 1 + (rounds % 3 + 3) % 3;
-	Mutex mutex;
-	Condition cond(mutex);
 	for (int r = 0; r < rounds; r++) {
+		auto S = std::make_shared<CondLateState>(); // (shared: a waiter that can never be woken is abandoned)
 		// step 1: timed wait that expires behind the signaller's back
-		bool flag1 = false;
-		std::atomic<int> inwait{0};
-		std::thread w1([&]() {
-			mutex.lock();
-			inwait = 1;
-			while (!flag1)
-				cond.wait(0.05 + (delay % 5) * 0.01);
-			mutex.unlock();
+		double tmo = 0.05 + (delay % 5) * 0.01;
+		std::thread w1([S, tmo]() {
+			S->mutex.lock();
+			S->inwait = 1;
+			while (!S->flag1)
+				S->cond.wait(tmo);
+			S->mutex.unlock();
+			S->inwait = 2;
 		});
 		double t0 = vf::now();
-		while (!inwait && vf::now() - t0 < 10)
+		while (!S->inwait && vf::now() - t0 < 10)
 			usleep(100);
 		usleep(2000);
-		mutex.lock();
+		S->mutex.lock();
 		usleep(150000 + (delay % 7) * 10000); // the waiter's deadline passes while we hold the mutex
-		flag1 = true;
-		cond.signal();
-		mutex.unlock();
+		S->flag1 = true;
+		S->cond.signal();
+		S->mutex.unlock();
+		t0 = vf::now();
+		while (S->inwait < 2 && vf::now() - t0 < 20)
+			usleep(200);
+		if (S->inwait < 2) {
+			w1.detach();
+			VF_FAIL("Condition: a waiter in the loop while(!flag) wait(timeout) did not get through within 20 s after the flag was set and signalled under the lock");
+		}
 		w1.join();
 		// step 2: one ordinary waiter, signalled once under the lock after it blocked
-		bool flag2 = false;
-		std::atomic<int> st{0};
-		std::thread w2([&]() {
-			mutex.lock();
-			st = 1;
-			while (!flag2)
-				cond.wait();
-			mutex.unlock();
-			st = 2;
+		std::thread w2([S]() {
+			S->mutex.lock();
+			S->st = 1;
+			while (!S->flag2)
+				S->cond.wait();
+			S->mutex.unlock();
+			S->st = 2;
 		});
 		t0 = vf::now();
-		while (st < 1 && vf::now() - t0 < 10)
+		while (S->st < 1 && vf::now() - t0 < 10)
 			usleep(100);
 		usleep(20000 + (delay % 11) * 3000);
-		mutex.lock();
-		flag2 = true;
-		cond.signal();
-		mutex.unlock();
+		S->mutex.lock();
+		S->flag2 = true;
+		S->cond.signal();
+		S->mutex.unlock();
 		t0 = vf::now();
-		while (st < 2 && vf::now() - t0 < 20)
+		while (S->st < 2 && vf::now() - t0 < 20)
 			usleep(200);
-		bool hung = st < 2;
+		bool hung = S->st < 2;
 		if (hung) {
 			printf("HANG-DIAG: Condition: after a timed wait had expired while the signaller held the mutex, the next lone waiter was signalled under the lock but did not wake within 20 s (lost signal)\n");
 			fflush(stdout);
-			for (int k = 0; k < 2000 && st < 2; k++) {
-				mutex.lock();
-				cond.signal();
-				mutex.unlock();
-				usleep(1000);
+			for (int k = 0; k < 200 && S->st < 2; k++) {
+				S->mutex.lock();
+				S->cond.signal();
+				S->mutex.unlock();
+				usleep(5000);
 			}
 		}
-		w2.join();
+		if (S->st == 2)
+			w2.join();
+		else
+			w2.detach();
 		VF_CHECK(!hung, "Condition: round ", r, ": after a timed wait had expired while the signaller held the mutex, the next lone waiter was signalled under the lock but did not wake within 20 s (lost signal)");
 	}
 }
